@@ -54,6 +54,8 @@ def specs(draw):
         else:
             chain.append(10.0 ** draw(st.floats(-30, -7, allow_nan=False)))
     spec = {"dim": dim, "layout": layout, "values": vals, "position": pos, "cls": cls, "volume_chain": chain, "start_radius": draw(_value)}
+    spec["chain_origin"] = draw(st.integers(0, 9))
+    spec["rejected_first"] = draw(st.sampled_from([None, None, 1.0, 0.5, 3.0]))
     # argument type: mostly float64; sometimes float32 arrays or (small) integers, which the conversions accept as well
     dt = draw(st.sampled_from(["float64"] * 6 + ["float32", "int"]))
     if dt == "float32" and layout != "scalar":
@@ -250,6 +252,28 @@ class C12(Property):
         ctx.require(np.array_equal(d2.position, p), "droplet:volume-setter-moves", "position changed by volume setter")
         # chain of volume assignments starting from an arbitrary prior state
         d4 = cls(p, spec.get("start_radius", 1.0))
+        # the droplet may have travelled before it is edited: through a pickle (as between processes), a shallow or deep copy
+        import copy
+        import pickle
+
+        how = ["fresh", "pickle", "copy", "deepcopy", "copy-method"][spec.get("chain_origin", 0) % 5]
+        if how == "pickle":
+            d4 = pickle.loads(pickle.dumps(d4, protocol=[pickle.HIGHEST_PROTOCOL, 2][spec.get("chain_origin", 0) // 5 % 2]))
+        elif how == "copy":
+            d4 = copy.copy(d4)
+        elif how == "deepcopy":
+            d4 = copy.deepcopy(d4)
+        elif how == "copy-method":
+            d4 = d4.copy()
+        ctx.cls(f"edited-after:{how}")
+        if spec.get("rejected_first"):
+            # a documented rejection (negative radius) precedes the valid requests; whatever it leaves behind, the valid
+            # assignments that follow must be honoured
+            try:
+                d4.radius = -abs(spec["rejected_first"])
+                ctx.fail("droplet:negative-radius-accepted", "radius = negative value did not raise")
+            except ValueError:
+                ctx.cls("after-rejected-radius")
         for v in spec.get("volume_chain", []):
             d4.volume = v
             ctx.require(close(d4.volume, v), f"droplet:volume-setter-chain:dim{dim}", f"chain {spec['volume_chain']} from r={spec.get('start_radius')}: set {v!r}, read {d4.volume!r}")
